@@ -229,6 +229,14 @@ def run_unit(name, canary=True, rlimit=None):
         res["undecided_reason"] = "lexer: %s" % e
         res["wall"] = time.time() - t0
         return res
+    except (IndexError, KeyError, ValueError, AttributeError, TypeError, AssertionError) as e:
+        # a unit builder that cannot find the code shape it weaves into (a loop, an argument list, a struct field) is a lost anchor, not a verdict
+        import traceback
+        tb = traceback.extract_tb(e.__traceback__)[-1]
+        res["status"] = "undecided"
+        res["undecided_reason"] = "lost anchor: the unit builder could not weave into the changed code (%s: %s at %s:%d)" % (type(e).__name__, e, os.path.basename(tb.filename), tb.lineno)
+        res["wall"] = time.time() - t0
+        return res
     path = os.path.join(GEN, name + ".rs")
     cpath = os.path.join(GEN, name + "__canary.rs")
     with open(path, "w") as f:
